@@ -22,6 +22,8 @@ PROPS["C01"] = {
         {"name": "bn-w8", "world": "W8", "src": "props/C01_bn.c", "share": 0.7},
         {"name": "bn-w64", "world": "W64", "src": "props/C01_bn.c"},
         {"name": "bn-w16", "world": "W16", "src": "props/C01_bn.c", "tiers": ("thorough",)},
+        {"name": "bn-w64-karat", "world": "W64-karat", "src": "props/C01_bn.c", "tiers": ("thorough",)},
+        {"name": "bn-w8-karat", "world": "W8-karat", "src": "props/C01_bn.c", "tiers": ("thorough",), "share": 0.2},
     ],
 }
 
@@ -40,6 +42,8 @@ PROPS["C02"] = {
         {"name": "fp-w64", "world": "W64", "src": "props/C02_fp.c"},
         {"name": "fp-w64-255", "world": "W64-255", "src": "props/C02_fp.c", "tiers": ("thorough",)},
         {"name": "fp-w64-381", "world": "W64-381", "src": "props/C02_fp.c", "tiers": ("thorough",)},
+        {"name": "fp-w64-karat", "world": "W64-karat", "src": "props/C02_fp.c", "tiers": ("thorough",)},
+        {"name": "fp-w8-karat", "world": "W8-karat", "src": "props/C02_fp.c", "tiers": ("thorough",), "share": 0.2},
     ],
 }
 
@@ -385,6 +389,8 @@ PROPS["C16"] = {
         {"name": "fb-w8-p871", "world": "W8", "src": "props/C16_fb.c", "env": {"VF_FB_POLY": "p:8,7,1"}, "tiers": ("thorough",), "share": 0.1},
         {"name": "fb-w8-t6", "world": "W8", "src": "props/C16_fb.c", "env": {"VF_FB_POLY": "t:6"}, "tiers": ("thorough",), "share": 0.1},
         {"name": "fb-w8-t5", "world": "W8", "src": "props/C16_fb.c", "env": {"VF_FB_POLY": "t:5"}, "tiers": ("thorough",), "share": 0.1},
+        {"name": "fb-w64-karat", "world": "W64-karat", "src": "props/C16_fb.c", "tiers": ("thorough",), "share": 0.1},
+        {"name": "fb-w8-karat", "world": "W8-karat", "src": "props/C16_fb.c", "tiers": ("thorough",), "share": 0.15},
         {"name": "fb-w64-163", "world": "W64-fb163", "src": "props/C16_fb.c", "tiers": ("thorough",), "share": 0.1},
         {"name": "fb-w64-233", "world": "W64-fb233", "src": "props/C16_fb.c", "tiers": ("thorough",), "share": 0.1},
     ],
@@ -398,6 +404,8 @@ PROPS["C10"] = {
     "rule": "cases are (prime, tower, operation group, elements); tiny worlds: complete element spaces by odometer, alphabets above; all non-trivial; distinct by 64-bit hash; states = elements of the complete spaces; transitions = individual results compared.",
     "assumptions": ["reference quotient-ring arithmetic in ref_ext.h", "calls inside RLC_TRY"],
     "jobs": [
+        {"name": "dxs-w64", "world": "W64", "src": "props/C04_pair.c", "args": ["--op", "dxs"], "share": 0.05},
+        {"name": "dxs-w64-381", "world": "W64-381", "src": "props/C04_pair.c", "args": ["--op", "dxs"], "tiers": ("thorough",), "share": 0.05},
         {"name": "fpx-w8", "world": "W8", "src": "props/C10_fpx.c", "share": 0.5, "share_thorough": 0.28},
         {"name": "fpx-w64", "world": "W64", "src": "props/C10_fpx.c", "share_thorough": 0.28},
         {"name": "fpx-w64-381", "world": "W64-381", "src": "props/C10_fpx.c", "tiers": ("thorough",), "share": 0.08},
